@@ -19,6 +19,7 @@ Binding F on the real code (harness/src/c12.rs):
 """
 import concurrent.futures as cf
 import json
+import time
 from pathlib import Path
 
 from vlib import *
@@ -110,12 +111,21 @@ def slim(e):
     return e
 
 
-def bind(ctx, part, cmd, module, devs, describe, parts):
-    ev = ctx.work / f"{part}.ndjson"
-    stats = ctx.work / f"{part}.stats.json"
+def record(ctx, part, cmd, module, parts):
+    """Run the harness and let TLC judge every event with the strict specification (thread-safe part)."""
+    class Own:  # vlib's validators keep their scratch files under ctx.work: one directory per recording
+        work = ctx.work / part
+    Own.work.mkdir(parents=True, exist_ok=True)
+    ev = Own.work / f"{part}.ndjson"
+    stats = Own.work / f"{part}.stats.json"
     vh(cmd + [f"out={ev}", f"stats={stats}"])
     st = json.loads(stats.read_text())
-    n, bad = validate_calls(ctx, module, module + ".cfg", ev, parts=parts)
+    n, bad = validate_calls(Own, module, module + ".cfg", ev, parts=parts)
+    return part, module, ev, st, n, bad
+
+
+def judge(ctx, rec, devs, describe):
+    part, module, ev, st, n, bad = rec
     for e, v in bad:
         if v.get("key") == "spec_disagrees_with_tex_golden":
             # the specification, not the code, is on trial against a paragraph set by real TeX
@@ -136,16 +146,21 @@ def bind(ctx, part, cmd, module, devs, describe, parts):
 
 def model_sf(ctx):
     # vacuity guard on the small model (coverage run), then the laws on the larger one
-    tlc_model(ctx, "SpaceFactor.actions", "MC_SpaceFactor", "MC_SpaceFactor_actions.cfg", expect_actions=SF_ACTIONS,
-              workers=2, coverage=True)
-    cfg = "MC_SpaceFactor.cfg" if ctx.quick else "MC_SpaceFactor_thorough.cfg"
-    tlc_model(ctx, "SpaceFactor.laws", "MC_SpaceFactor", cfg, workers=3 if ctx.quick else 6, coverage=False)
+    # (the machine's state is the factor alone: <= 4 tokens reach every transition; the longer runs of the
+    # thorough tier only lengthen the histories the laws are read from)
+    tlc_model(ctx, "SpaceFactor.laws_with_action_coverage", "MC_SpaceFactor", "MC_SpaceFactor_actions.cfg",
+              expect_actions=SF_ACTIONS, workers=2, coverage=True)
+    if not ctx.quick:
+        tlc_model(ctx, "SpaceFactor.laws", "MC_SpaceFactor", "MC_SpaceFactor_thorough.cfg", workers=6, coverage=False)
 
 
 def model_plb_actions(ctx):
-    # vacuity guard on the small model: every Append / Justify / Prune action is taken
+    # vacuity guard on the smallest model (coverage run): every Append / Justify / Prune action is taken;
+    # then every setting on lists of <= 2 nodes
     tlc_model(ctx, "PostLineBreak.actions", "MC_PostLineBreak", "MC_PostLineBreak_actions.cfg",
               expect_actions=PLB_ACTIONS, workers=2, coverage=True)
+    tlc_model(ctx, "PostLineBreak.laws_len2_all_settings", "MC_PostLineBreak", "MC_PostLineBreak_len2.cfg",
+              workers=2, coverage=False)
 
 
 def model_plb(ctx):
@@ -165,9 +180,11 @@ def model_plb_deep(ctx):
 
 
 def negs(ctx, module, lst, name):
+    t = time.time()
     for cfg, what in lst:
-        tlc_expect_refuted(module, cfg, what, workers=2)
-    ctx.cov["parts"][name] = len(lst)
+        tlc_expect_refuted(module, cfg, what, workers=1)
+    ctx.cov["parts"][name] = ctx.cov["parts"].get(name, 0) + len(lst)
+    log(f"[tlc] {name}: {len(lst)} refuted in {time.time() - t:.1f}s")
 
 
 def run(ctx):
@@ -185,27 +202,34 @@ def run(ctx):
         "distinct events with >= 2 lines.  Counts of breaks by kind, breaks followed by a discardable item, breaks with "
         "post-break material are measured by the harness (parts.*.measured)."
     )
-    with cf.ThreadPoolExecutor(max_workers=6) as ex:
+    with cf.ThreadPoolExecutor(max_workers=5) as ex:
         futs = [ex.submit(model_plb, ctx), ex.submit(model_sf, ctx), ex.submit(model_plb_actions, ctx),
-                ex.submit(negs, ctx, "MC_SpaceFactor", SF_NEGS, "SpaceFactor.negative_controls_refuted"),
                 ex.submit(negs, ctx, "MC_PostLineBreak", PLB_NEGS, "PostLineBreak.negative_controls_refuted"),
+                ex.submit(negs, ctx, "MC_SpaceFactor", SF_NEGS, "SpaceFactor.negative_controls_refuted"),
                 ex.submit(model_plb_deep, ctx)]
         # ---------------- binding F --------------------------------------------------------------
-        bind(ctx, "para.tex_goldens", ["c12-goldens"], "Trace_PostLineBreak", PLB_DEVS, describe_para, parts=1)
+        seed = ctx.seed
         if q:
-            bind(ctx, "text.random", ["c12-text", f"seed={ctx.seed}", "n=3000"], "Trace_SpaceFactor", SF_DEVS,
-                 describe_text, parts=2)
-            bind(ctx, "para.exhaustive", ["c12-exh", "maxlen=3"], "Trace_PostLineBreak", PLB_DEVS, describe_para, parts=1)
-            bind(ctx, "para.random", ["c12-para", f"seed={ctx.seed}", "n=3000"], "Trace_PostLineBreak", PLB_DEVS,
-                 describe_para, parts=4)
+            plan = [("text.random", ["c12-text", f"seed={seed}", "n=2500"], "Trace_SpaceFactor", 2),
+                    ("para.tex_goldens", ["c12-goldens"], "Trace_PostLineBreak", 1),
+                    ("para.exhaustive", ["c12-exh", "maxlen=3"], "Trace_PostLineBreak", 1),
+                    ("para.random", ["c12-para", f"seed={seed}", "n=2500"], "Trace_PostLineBreak", 3)]
         else:
-            bind(ctx, "text.random", ["c12-text", f"seed={ctx.seed}", "n=150000"], "Trace_SpaceFactor", SF_DEVS,
-                 describe_text, parts=10)
-            bind(ctx, "para.exhaustive", ["c12-exh", "maxlen=5"], "Trace_PostLineBreak", PLB_DEVS, describe_para, parts=10)
-            bind(ctx, "para.random", ["c12-para", f"seed={ctx.seed}", "n=120000"], "Trace_PostLineBreak", PLB_DEVS,
-                 describe_para, parts=10)
-            bind(ctx, "para.random_text", ["c12-para", f"seed={ctx.seed + 1}", "n=30000", "text=100"],
-                 "Trace_PostLineBreak", PLB_DEVS, describe_para, parts=10)
+            plan = [("text.random", ["c12-text", f"seed={seed}", "n=150000"], "Trace_SpaceFactor", 10),
+                    ("para.tex_goldens", ["c12-goldens"], "Trace_PostLineBreak", 1),
+                    ("para.exhaustive", ["c12-exh", "maxlen=5"], "Trace_PostLineBreak", 10),
+                    ("para.random", ["c12-para", f"seed={seed}", "n=120000"], "Trace_PostLineBreak", 10),
+                    ("para.random_text", ["c12-para", f"seed={seed + 1}", "n=30000", "text=100"],
+                     "Trace_PostLineBreak", 10)]
+        # two at a time when quick (the events are few, JVM start-up dominates), one after the other when thorough
+        with cf.ThreadPoolExecutor(max_workers=2 if q else 1) as bx:
+            recs = [bx.submit(record, ctx, part, cmd, module, parts) for part, cmd, module, parts in plan]
+            for r in recs:
+                rec = r.result()
+                if rec[1] == "Trace_SpaceFactor":
+                    judge(ctx, rec, SF_DEVS, describe_text)
+                else:
+                    judge(ctx, rec, PLB_DEVS, describe_para)
         for f in futs:
             f.result()
     ctx.assumptions += [
